@@ -467,3 +467,7 @@ add('C12', 'isatty-in-main-thread', CSF, KEYHINT, "        if sys.stdin.isatty()
 add('C12', 'isatty-in-main-thread-guarded *', CSF, KEYHINT, "        try:\n            interactive = sys.stdin.isatty()\n        except Exception:\n            interactive = False\n        if interactive:\n            print (\"Press [ENTER] to display a status output\",file=sys.stderr)\n", 'silent')
 SEEK0 = "                file.seek(0)\n\n            # Read though all the lines in the file"
 add('C14', 'skip-brute-cleared-when-total-is-one', GIO, SEEK0, "                file.seek(0)\n                if total_prob == 1.0:\n                    skip_brute = False\n\n            # Read though all the lines in the file", 'fire', 'C14.R12')
+OGG = "        num_guesses = 0\n        guess = markov_cracker.next_guess()\n        while guess is not None:\n            num_guesses += 1\n"
+add('C15', 'local-seen-set-in-markov-loop', PGF, OGG, "        num_guesses = 0\n        seen = set()\n        guess = markov_cracker.next_guess()\n        while guess is not None:\n            if guess in seen:\n                guess = markov_cracker.next_guess()\n                continue\n            seen.add(guess)\n            num_guesses += 1\n", 'fire', 'C15.R10')
+LG_RET = "        raise Exception\n\n    return grammar, base_structures, ruleset_info"
+add('C17', 'base-structures-filtered-after-load', GIO, LG_RET, "        raise Exception\n\n    base_structures = [b for b in base_structures if all(i == 'M' or i[1:].isdigit() for i in b['replacements'])]\n    return grammar, base_structures, ruleset_info", 'fire', 'C17.R13')
